@@ -262,6 +262,27 @@ if m:
 else:
     errors.append('authority.rs: interval_decimation call not found')
 
+# ---- the shipped example configuration (contrib/etc/glonax.conf), as authority cases
+try:
+    import tomllib
+    conf = tomllib.loads(src('contrib/etc/glonax.conf', repo))
+    KEYN = {('laixer', 'hcu'): 1, ('laixer', 'vcu'): 2, ('j1939', 'ecu'): 3, ('kübler', 'encoder'): 4,
+            ('kübler', 'inclinometer'): 5, ('j1939', 'ecm'): 6, ('volvo', 'd7e'): 7}
+    nets = []
+    for net in conf.get('j1939', []):
+        nm = net['name']
+        head = [net['address'], nm['manufacturer_code'], nm['function_instance'], nm['ecu_instance'], nm['function'],
+                nm['vehicle_system'], nm['vehicle_system_instance'], nm['industry_group'], len(net['driver'])]
+        for d in net['driver']:
+            tk = 0 if 'timeout' not in d else (2 if d['timeout'] == 0 else 1)
+            head += [KEYN.get((d['vendor'], d['product']), 0), d['da'], 1 if 'sa' in d else 0, d.get('sa', 0), tk]
+        nets.append('[' + '; '.join(str(x) for x in head) + ']')
+    if not nets:
+        errors.append('contrib/etc/glonax.conf: no [[j1939]] network found')
+    defs.append(('shipped_networks', 'list (list Z)', '[' + '; '.join(nets) + ']', 'contrib/etc/glonax.conf [[j1939]] entries as authority case prefixes (timeouts as class: present/zero/absent)'))
+except Exception as ex:  # noqa
+    errors.append('contrib/etc/glonax.conf cannot be parsed: %s' % ex)
+
 EXTRA = os.path.join(os.path.dirname(os.path.abspath(__file__)), 'rs2v_extra.py')
 if os.path.exists(EXTRA):
     exec(compile(open(EXTRA).read(), EXTRA, 'exec'))
